@@ -13,6 +13,10 @@ Long delivered lines (c11_long.py): construct programs whose expanded lines swee
 line short), through the same pipeline as the construct stream, plus long comment-line bodies through the token model.
 Bookkeeping of expansions (c11_nest.py, Spec/Model MacroNest.lean, Props/C11_Nest.lean): many calls of macros with every control
 parameter, call chains, recursion around NESTMAX, empty bodies - the recursion counter and the local-symbol handles.
+Context of an expansion (c11_ctx.py, Spec/MacroCtx.lean, Model/TagsCtx.lean, Props/C11_Ctx.lean): programs spread over several directories
+with same-named files everywhere, INCLUDE/BINCLUDE issued from macro and loop bodies and followed by further relative INCLUDE/BINCLUDE
+statements - the hand expansion inlines the file the manual's search rule names; labels on / in front of the lines that open a construct at
+odd addresses on targets that insert pad bytes - the hand expansion has the label in front of the first expanded statement.
 """
 import json
 import os
@@ -24,6 +28,7 @@ from ..common import log
 from . import c11_tags
 from . import c11_long
 from . import c11_nest
+from . import c11_ctx
 
 INC = os.path.join(common.REPO, "include")
 
@@ -207,8 +212,10 @@ class Gen:
         self.nlab = 0
         self.macros = []      # (name, params, defaults, locals, body(list of nodes), gs)
         self.enclosing = []   # upper-cased iteration variable names of the enclosing constructs (never reused inside)
+        self.ctrl = False     # this program has string / character constants with control characters (TAB, 01h..1Fh) in its bodies
         self.stats = dict(rept=0, irp=0, irpn=0, irpc=0, call=0, exitm=0, line=0, labels=0, globalsymbols=0, keyword=0, default=0,
-                          excess=0, empty_arg=0, zero_iter=0, ragged=0, allargs=0, argcount=0, maxdepth=0, substr_names=0, arg_is_param_name=0)
+                          excess=0, empty_arg=0, zero_iter=0, ragged=0, allargs=0, argcount=0, maxdepth=0, substr_names=0, arg_is_param_name=0,
+                          ctrl_in_string=0)
 
     def fresh(self):
         self.nid += 1
@@ -276,6 +283,12 @@ class Gen:
         items = []
         for _ in range(rng.randrange(1, 4)):
             r2 = rng.random()
+            if self.ctrl and rng.random() < 0.35:
+                # a string / character constant with a TAB or another control character in it (KillCtrl rewrites stored body lines)
+                c = chr(rng.choice([9, 9, 9, 9, 1, 2, 3, 5, 8, 11, 12, 16, 27, 31]))
+                items.append(rng.choice(['"a%sb"', '"%s"', "'%s'", '"%sq"', '"x%s%sy"', '"k %s"']).replace("%s", c))
+                self.stats["ctrl_in_string"] += 1
+                continue
             if vs and r2 < 0.6:
                 v = rng.choice(vs)
                 if not self.cs and rng.random() < 0.3:
@@ -488,6 +501,7 @@ def build_program(top, macros, cs, rng):
 
 def gen_program(rng, cs):
     g = Gen(rng, cs)
+    g.ctrl = rng.random() < 0.06
     top = []
     for _ in range(rng.randrange(1, 5)):
         if rng.random() < 0.25:
@@ -516,6 +530,14 @@ def canon_p(data):
 
 def strip_sfx(line):
     return re.sub(rb"(LQ\d+)(?:X\d+Y\d+)+", rb"\1", line)
+
+
+SIG_TAB = "tab-inside-string-expanded-in-stored-body"
+
+
+def squash_ctrl(line):
+    """every run of blanks and control characters -> one blank"""
+    return re.sub(rb"[\x00-\x20]+", b" ", line)
 
 
 def norm_i(lines):
@@ -779,6 +801,9 @@ FINDING_PROBES = [
 ]
 
 PROGRAM_PROBES = [
+    (SIG_TAB, " cpu z80\n org 0\nm macro\n db \"a\tb\"\n endm\n m\n db 255\n", " cpu z80\n org 0\n db \"a\tb\"\n db 255\n"),
+    (SIG_TAB, " cpu z80\n org 0\n irp x,1\n db \"a\x05b\",'\x1b'\n endm\n irpc y,\"1\"\n db \"\tq\"\n endm\n db 255\n",
+     " cpu z80\n org 0\n db \"a\x05b\",'\x1b'\n db \"\tq\"\n db 255\n"),
     ("irpc-empty-string-iterates-once", " cpu z80\n org 0\n irpc c,\"\"\n db 1,\"<c>\"\n endm\n db 255\n", " cpu z80\n org 0\n db 255\n"),
     ("exitm-in-irp-crash", " cpu z80\n org 0\n irp t,1,2\n db t\n if 1\n exitm\n endif\n db 9\n endm\n db 255\n", " cpu z80\n org 0\n db 1\n db 255\n"),
     ("exitm-in-irp-crash", " cpu z80\n org 0\n irpn 2,t,u,1,2,3\n db t\n if 1\n exitm\n endif\n db 9\n endm\n db 255\n", " cpu z80\n org 0\n db 1\n db 255\n"),
@@ -842,6 +867,13 @@ def run(args):
             edge[tag] = "rejected (rc=%s)" % rc if rc != 0 else "accepted"
         res.notes.append("parameter-name shapes excluded by C11_tokens (NameOK), probed on the real assembler: %s" % edge)
         qflags, qdict = c11_tags.probe_quirks(asl, bdir, wd)
+        # does KillCtrl rewrite control characters inside string constants (known finding tab-inside-string-expanded-in-stored-body)?  Model/Macro.lean
+        # killCtrl transcribes that behaviour; once it is repaired the text comparisons of the programs with such constants are skipped until
+        # the model is re-transcribed (the SPEC comparison - code of the construct program = code of its hand expansion - stays in force)
+        _, _, pk1, _ = asl(bdir, wd, "q6a", ' cpu z80\n org 0\nqk macro\n db "a\tb"\n endm\n qk\n')
+        _, _, pk2, _ = asl(bdir, wd, "q6b", ' cpu z80\n org 0\n db "a\tb"\n')
+        kill_in_strings = pk1 is None or pk2 is None or canon_p(pk1) != canon_p(pk2)
+        qdict = dict(qdict, killCtrlInStrings=kill_in_strings)
         res.notes.append("quirk flags of the tag machine model, calibrated on the real assembler: %s" % qdict)
 
         # ---------------- token stream
@@ -946,7 +978,18 @@ def run(args):
                 if c1 != c2:
                     info["why"] = "code file of the construct program differs from the code file of its hand expansion: %r vs %r" % (
                         first_cell_diff(c1, c2))
+                    if st.get("ctrl_in_string") and i1 is not None:
+                        # exactly the class of the known finding: the lines asl delivers are the hand expansion's lines except that control
+                        # characters (inside the string / character constants - the generator puts them nowhere else) have become blanks
+                        a = [squash_ctrl(x) for x in norm_i(i1.split(b"\n"))]
+                        b = [squash_ctrl(x) for x in norm_i([strip_sfx(x) for x in exp_lines])]
+                        if a == b:
+                            info["sig"] = SIG_TAB
+                            dist["ctrl_string_finding_programs"] = dist.get("ctrl_string_finding_programs", 0) + 1
                     spec_fail.append(info)
+                    continue
+                if st.get("ctrl_in_string") and not kill_in_strings:
+                    dist["ctrl_string_text_compare_skipped"] = dist.get("ctrl_string_text_compare_skipped", 0) + 1
                     continue
                 if i1 is not None:
                     a = norm_i(i1.split(b"\n"))
@@ -1018,6 +1061,11 @@ def run(args):
         if "nest" in dist:
             dist["nest"]["wall_s"] = round(time.time() - t0, 1)
 
+        # ---------------- context of an expansion: the file an INCLUDE/BINCLUDE names, the label in front of a construct (c11_ctx.py)
+        ev4, distinct4 = c11_ctx.run_stream(args, canon_p, bdir, wd, drv_ok, dist, spec_fail, corr_fail, proof_problems, samples)
+        evaluations += ev4
+        distinct |= distinct4
+
     res.coverage = common.proof_coverage(audit, "C11", [
         "translate/tables.py MacroConsts (ArgCntMax, implicit parameter names via compiled dumper over asmdef.h)",
         "correspondence: real asl -P output vs Model/MacroCall.lean on generated macro bodies (differential test)",
@@ -1028,6 +1076,11 @@ def run(args):
         "against the real asl (driver c11nest), the quirk flag emptyPops (the Restorer pops a handle the tag never pushed) is probed on the real binary; "
         "SPEC Spec/MacroNest.lean is executable and judges the real output; a refinement theorem model = spec for all programs is NOT proved "
         "(proved: counter = open expansions in every reachable state, refusal iff above NESTMAX, handle stack balanced without the quirk)",
+        "context of an expansion (Model/TagsCtx.lean: CurrFileName saved/restored by the INCLUDE tags, FSearch by path components, Produce_Code's label "
+        "memory with InsertPadding/LabelModify; Props/C11_Ctx.lean: C11_ctx_refines - the tag machine delivers the SPEC's hand expansion for every program "
+        "and file system for which it exists -, C11_ctx_include_restores, C11_ctx_curr_inv, C11_ctx_label_construct_independent, C11_ctx_transparent): the "
+        "model's code image is compared with the real code file (driver c11ctx), the SPEC's hand expansion is assembled by the real asl; the quirk flag "
+        "inclResetsLabel is probed on the real binary",
         "the line buffer (as_dynstr, ReplaceToken's growth rule) is not modelled: the token layer model works on unbounded lists, which is what the "
         "real code does on the unchanged tree for every length the long-line stream generates"])
     res.coverage.update(
@@ -1035,14 +1088,20 @@ def run(args):
         rule="token stream: one delivered body line per evaluation (0..40 parameters, names that are substrings of identifiers, \\name\\ forms, arguments that are "
              "other parameters' names, empty/excess/missing arguments, ALLARGS/ARGCOUNT, both case modes), distinct by (parameter count, body line, arguments); "
              "construct stream: one program per evaluation (MACRO positional/keyword/default/excess, REPT 0..40, IRP, IRPN 1..4 ragged, IRPC, EXITM, nesting <= 3, "
-             "private labels vs GLOBALSYMBOLS), distinct by construct tree - every such program also through the tag machine model; "
+             "private labels vs GLOBALSYMBOLS; in 6 % of the programs string / character constants with a TAB or another control character 01h..1Fh "
+             "in the bodies), distinct by construct tree - every such program also through the tag machine model; "
              "tags flat stream: one generated source per evaluation (SHIFT, EXITM, parameters in nested headers, macro calls in bodies, "
              "macros defined in a repetition), distinct by source; SHIFT cases vs the manual's rule; misc: INCLUDE/BINCLUDE/WHILE programs; "
              "long stream: one construct program per evaluation whose delivered line has a chosen length (sweeps 1016..1032 with nothing long seen before, "
              "1144..1160 after a physical line of 1023..1149 characters, random lengths/histories, stored lines that grow by one-letter names, ascending "
              "sweeps in one run; MACRO positional/keyword/default/ALLARGS, IRP, IRPN, REPT/IRP/IRPC/MACRO inside a macro), distinct by construct tree; "
              "long comment-line bodies through the token model; nest stream: one program per evaluation (1..620 calls of macros with every control "
-             "parameter, one and two passes, call chains up to depth 300, bounded recursion around NESTMAX, unbounded recursion, empty bodies), distinct by source",
+             "parameter, one and two passes, call chains up to depth 300, bounded recursion around NESTMAX, unbounded recursion, empty bodies), distinct by source; "
+             "ctx stream: one multi-file program per evaluation (2..6 directories with same-named text and binary files, -i list, main file in or below the "
+             "working directory; INCLUDE/BINCLUDE with bare / relative / .. / absolute names at file level and inside MACRO/REPT/IRP/IRPN/IRPC/WHILE bodies, "
+             "nested, in included files; labels on the opening line of every construct kind or alone on the line before, at odd and even addresses, 68000 / "
+             "MSP430 / TMS9900 / 6809 / H8/300 / Z80 with PADDING default, ON, OFF, first body statement word, instruction or byte, label referenced "
+             "afterwards), distinct by the program's encoding",
         samples=samples, distribution=dist)
     res.assumptions = ["the hand expansion of private labels renames them with a suffix per expansion instance (construct id, iteration)",
                        "in case-insensitive mode the harness upper-cases arguments outside quotes before handing them to the model (UpString is not modelled)",
@@ -1054,6 +1113,11 @@ def run(args):
                        "(Spec/MacroNest.lean BLine); the rendering to source text (control parameters, INTLABEL/__LABEL__, IF arg>0 for bounded recursion, "
                        "REPT/IRP/IRPC headers) is done by the harness; the spec looks labels up along the chain of open expansions (the manual does not say "
                        "whether a called macro sees its caller's private labels; the generated programs never depend on it)",
+                       "ctx stream: a statement is reduced to its bytes and its alignment wish, a body to the number of its deliveries (Spec/MacroCtx.lean Item); the "
+                       "rendering to source text per target (data pseudo-ops, IRP/IRPN/IRPC argument lists, WHILE counters, macro definitions in the main file or in an "
+                       "included definitions file) and the renaming of private labels per instance in the hand expansion are done by the harness; the order in which "
+                       "several -i directories are searched is taken as written (the manual does not say); a file named with a path specification that only the -i list "
+                       "or the working directory would find has no hand expansion by the manual's rule - only model and real are compared there",
                        "nest stream: an error message whose position prefix fills asl's 1024-byte buffer loses its text; such a line is counted as the refusal "
                        "(the only error that happens that deep in the generated programs)"]
     return common.conclude(res, proof_problems, spec_fail, corr_fail, evaluations)
@@ -1062,6 +1126,11 @@ def run(args):
 def replay(args):
     d = json.load(open(args.replay))
     print(json.dumps({k: (v if len(str(v)) < 3000 else str(v)[:3000] + "...") for k, v in d.items()}, indent=1))
+    if "files" in d and "source" in d:
+        bdir = common.repo_build("hooks")
+        with common.Workdir("c11r") as wd:
+            c11_ctx.replay(d, bdir, wd, canon_p)
+        return 0
     if "source" in d:
         bdir = common.repo_build("hooks")
         with common.Workdir("c11r") as wd:
